@@ -1,6 +1,7 @@
 package harness
 
 import (
+	"encoding/json"
 	"fmt"
 	"math/rand"
 	"strings"
@@ -100,6 +101,15 @@ func genC02(seed int64, tier string) *Scenario {
 	if r.Intn(2) == 0 {
 		docs = docs[:1]
 	}
+	if r.Intn(2) == 0 {
+		// the client names its plugin path (as the real one does): documents can then be outside
+		// the workspace, and one of the edited documents is
+		sc.Plugin = true
+		sc.Knobs["plugin"] = true
+		if r.Intn(2) == 0 {
+			docs = append(docs, "/outside/o.lua")
+		}
+	}
 	model := map[string][]byte{}
 	for _, d := range docs {
 		lines := r.Intn(6)
@@ -131,7 +141,14 @@ func genC02(seed int64, tier string) *Scenario {
 			open[d] = true
 			continue
 		}
-		switch k := r.Intn(20); {
+		switch k := r.Intn(23); {
+		case k == 20: // the file of the open document is deleted on disk; the editor keeps the buffer
+			sc.Ops = append(sc.Ops, Op{Kind: "fsremove", Path: d}, Op{Kind: "deliver"})
+		case k == 21: // a settings change rebuilds the server's project while documents are open
+			cfg := fmt.Sprintf(`{"luahelper":{"base":{"ReferenceMaxNum":%d},"Warn":{"AllEnable":true,"CheckSyntax":true,"CheckNoDefine":%v}}}`, 10+r.Intn(100), r.Intn(2) == 0)
+			sc.Ops = append(sc.Ops, Op{Kind: "config", Params: json.RawMessage(cfg)})
+		case k == 22: // save under a name that the disk does not have yet / any more
+			sc.Ops = append(sc.Ops, Op{Kind: "save", Path: d})
 		case k < 11: // incremental change, possibly a batch
 			nb := 1
 			if r.Intn(4) == 0 {
